@@ -322,12 +322,19 @@ REGENLEAF = (" Verif.Props.RegenLeaf (faithful model of the container-free Markd
 LISTSTARTS = (" Verif.Props.ListStarts (faithful model of list-item start recognition for an ARBITRARY stack: list_block_starts_helper, list_block_pre_list_helper, "
               "list_block_can_close_helper with the close_open_blocks pop and find_last_block_quote_on_stack; real functions on real stack / token objects in a real ParserState: "
               "117 M requests thorough + 258 k calls harvested from 19 k parses, line coverage 422 of 422): ")
+LEAFBLOCKS2 = (" Verif.Props.LeafBlocks2 (faithful models of the HTML-block start / end conditions of html_helper.py and leaf_block_helper.py, of fenced-code content lines and "
+               "of indented-code content lines; spec side HtmlBlockSpec from CommonMark 4.4-4.6 in the 0.29 and 0.31 versions; 13.8 M requests thorough, type-6 tag table of the "
+               "source = model = CommonMark 0.29 re-checked every run): ")
+SCANRULES2 = (" Verif.Props.ScanRules2 (faithful models of MD011 MD013 MD014 MD018 MD020 MD028 MD032 MD033 MD034 incl. the next_line side of MD011 / MD013; 1.14 M comparisons "
+              "thorough through a real PluginManager, 411 of 411 lines of the modelled methods reached, four regular expressions checked against CPython's re by tables): ")
 EXTRA2 = {
- "C03": [LISTSTARTS + "list_start_spec (accepts exactly the CommonMark marker sentence; marker_sentence_is_leanmark ties the sentence to LeanMark's listMarker?), "
+ "C03": [LEAFBLOCKS2 + "html_end_spec (kinds 2-5, iff), html_end_spec_blank, html_end_spec_partial + html_end_excluded (</PRE>), type7_no_interrupt, fence_content_spec_partial, icode_content_spec, icode_not_eligible; html_start_spec is stated and FALSE as an equality (witnesses: <-> , <1 a>, <a B>, <a 1>, KELVIN <linK>) — totality, locality and no-interrupt are the proved parts, the tie compares with the specification on the whole space and reports the difference classes.",
+         LISTSTARTS + "list_start_spec (accepts exactly the CommonMark marker sentence; marker_sentence_is_leanmark ties the sentence to LeanMark's listMarker?), "
          "list_start_decomposition (the verdict for any stack), same_list_spec (5.3: same bullet character / delimiter continues the list), interrupt_spec_partial + interrupt_excluded "
          "('a\\n01. b': is_not_one compares the text with \"1\"), content_column_spec_partial + two excluded witnesses recorded from real runs ('- -   \\n    a' gives indent 6, spec 4), "
          "list_start_nested_spec_partial + witness ('- a\\n      - c' becomes a nested list: the parent indent is counted twice), first_item_clause_inert (dead logic), columns_conserved."],
- "C01": [LISTSTARTS + "list_start_total (every Int start index, guard StackOK, list_start_excluded witnesses), pre_list_total / pre_list_excluded, close_required_total, "
+ "C01": [LEAFBLOCKS2 + "html_block_total (+ html_block_total_excluded), html_normal_range, html_special_local.",
+         LISTSTARTS + "list_start_total (every Int start index, guard StackOK, list_start_excluded witnesses), pre_list_total / pre_list_excluded, close_required_total, "
          "close_required_prefix, can_remove_total, can_close_terminates; root cause of the call-site finding F-TOK-AE-handle_list_nesting located (stack_count >= current_count + 2 runs "
          "the nesting loop twice: '> > a\\n- b').",
          INLINELOOP + "inline_loop_terminates (turns <= number of inline start characters; fuel always sufficient), inline_loop_total (under the guard envOK and the contract the only "
@@ -336,7 +343,8 @@ EXTRA2 = {
  "C08": [REGENLEAF + "regen_field_local (changing one style field of one leaf token — ATX hash count, fence character, thematic break text … — changes only that token's own "
          "contribution to the regenerated text; regen_field_local_excluded shows the one field shape where it does not): the token-level statements mdX_fix_only_style transfer to text "
          "for container-free documents."],
- "C02": [REGENLEAF + "regen_total (no exception on streams satisfying the explicit guard WF, by a guard-to-context simulation; 12 regen_excluded_* witnesses, one per guard clause), "
+ "C02": [LEAFBLOCKS2 + "fence_content_roundtrip_partial, icode_roundtrip (stored white space + text = the source line, through C02's resolve_encode / remove_encode; general for tab-free lines, TAB cases are #guard tests + tie).",
+         REGENLEAF + "regen_total (no exception on streams satisfying the explicit guard WF, by a guard-to-context simulation; 12 regen_excluded_* witnesses, one per guard clause), "
          "regen_concat / regen_concat_parts (the output is the concatenation of per-token contributions + final-newline correction), regen_blocks_compose, regen_paragraph_text / "
          "regen_paragraph_document, regen_leaf_roundtrip (blank line, thematic break, ATX heading, paragraph, setext heading, closed fenced block: regenerating the tokens the block pass "
          "produces gives back the lines — composes the LeafFields reassembly lemmas; stream-level witnesses for F-THORN, F-FENCE-TRAILWS, F-SETEXT-TRAILWS), regen_pragma_only_last.",
@@ -347,14 +355,18 @@ EXTRA2 = {
          "position), with the full statement PROVED FALSE for the code by positions_excluded_multiline / positions_excluded_setext — the root causes of the known family F-C05-INLINECOL "
          "(an element spanning a line break does not advance the paragraph's per-line indentation index; setext heading after a hard break counts the indentation twice; the code-span "
          "column delta ignores the paragraph's leading white space)."],
- "C06": [SCANRULES + "mdX_scan_iff (reports <=> a sentence-shaped condition over the stream; unconditional for MD003 MD022 MD025 MD040 MD042 MD045, under a guard every parsed stream "
+ "C06": [SCANRULES2 + "mdX_scan_iff for MD013 and MD011 (under the guard that leaf / blank-line tokens start on increasing lines: the governing token of a line is the last such token starting at or before it), MD014 MD034 MD028 (every stream), MD033 (when the assert cannot fail); MD018 MD020 MD032: model + tie + excluded points (md032_stack_leak).",
+         SCANRULES + "mdX_scan_iff (reports <=> a sentence-shaped condition over the stream; unconditional for MD003 MD022 MD025 MD040 MD042 MD045, under a guard every parsed stream "
          "satisfies for MD024 MD026 MD036 MD041, 8 excluded-point witnesses), mdX_faithful_eq_spec against Verif.Model.RuleSpec (full: MD003 MD024 MD025 MD040; _partial with proved "
          "witnesses md045_differs (U+000B), md042_differs (U+00A0), md041_h1_differs (<H1>), md024_text_differs, md022_count_unknown_after_list)."],
- "C07": [SCANRULES + "mdX_reports_in_range for all ten (every report's (line, column) is the position, or for a SetExt heading the original position, of a token of the stream of the named "
+ "C07": [SCANRULES2 + "mdX_reports_in_range for MD013 MD011 MD014 MD033 MD034 (adjust034_bounds), mdX_total for MD014 MD028 MD034 (every file) and MD013 MD011 MD033 (under their guards); excluded points that are real crashes: md033_excluded (<h1 </h1>), md011_excluded / md013_excluded (a one-line pragma document: empty leaf-token list).",
+         SCANRULES + "mdX_reports_in_range for all ten (every report's (line, column) is the position, or for a SetExt heading the original position, of a token of the stream of the named "
          "kind; md026_delta_bounds for MD026's computed deltas)."],
- "C12": [SCANRULES + "allTen_projection (in the joint pass each rule's share of the report list is exactly what it reports alone, same order), mdX_scan_reads (the verdict depends only on the "
+ "C12": [SCANRULES2 + "mdX_scan_reads for MD011 MD013 MD014 MD028 MD032 MD033 MD034.",
+         SCANRULES + "allTen_projection (in the joint pass each rule's share of the report list is exactly what it reports alone, same order), mdX_scan_reads (the verdict depends only on the "
          "named token kinds / fields)."],
- "C13": [SCANRULES + "mdX_state_reset: scanAfter rule cfg A B = scan rule cfg B for ALL streams A, B (nine rules assign every field in starting_new_file; MD022 leaves "
+ "C13": [SCANRULES2 + "mdX_state_reset (file B after file A = B alone, all A, B) for MD011 MD013 MD014 MD028 MD032 MD033 MD034; md018_stale_delayed_line (MD018 / MD020 reset 4 of 7 parser fields: a stale delayed line is reported into the previous file's context); 43 k two-file comparisons against fresh rule objects.",
+         SCANRULES + "mdX_state_reset: scanAfter rule cfg A B = scan rule cfg B for ALL streams A, B (nine rules assign every field in starting_new_file; MD022 leaves "
          "__start_heading_blank_line_count unassigned: proved harmless, with an example that the start states really differ); 71 k two-file sequences on one PluginManager vs fresh objects."],
 }
 
